@@ -384,7 +384,8 @@ def fixture_notebooks():
 
 # ------------------------------------------------------------------ targeted three-way scenarios
 SCENARIOS = ['concurrent-insert', 'concurrent-insert', 'delete-vs-edit', 'same-line', 'different-lines', 'both-outputs', 'both-metadata',
-             'insert-next-to-edit', 'delete-vs-transient', 'same-change', 'both-nbmeta', 'both-attachments', 'minor', 'replace-vs-transient', 'remove-output-vs-transient', 'dup-around-shared']
+             'insert-next-to-edit', 'delete-vs-transient', 'same-change', 'both-nbmeta', 'both-attachments', 'minor', 'replace-vs-transient', 'remove-output-vs-transient', 'dup-around-shared',
+             'replace-vs-insert', 'two-conflict-regions', 'output-mixed-keys', 'minor-down']
 
 
 def similar_cell(rng, c, used):
@@ -567,6 +568,70 @@ def triple_scenario(rng, minor=None, first=None):
                 i = rng.choice(cands)
                 l['cells'][i]['attachments'] = {'fig.png': {'image/png': B64[0]}}
                 r['cells'][i]['attachments'] = {'fig.png': {'image/png': B64[1]}, 'r.png': {'image/png': B64[2]}}
+        elif sc == 'replace-vs-insert':
+            # one side replaces an item by something dissimilar (remove + insert), the other only inserts at that position
+            i = rng.choice(common)
+            a, b_ = (l, r) if rng.random() < 0.5 else (r, l)
+            ca, cb = a['cells'][i], b_['cells'][i]
+            if ca['cell_type'] == 'code' and ca['outputs'] and rng.random() < 0.4:
+                k = rng.randrange(len(ca['outputs']))
+                ca['outputs'][k] = {'output_type': 'stream', 'name': 'stderr', 'text': 'replaced %d\n' % rng.randrange(99)}
+                cb['outputs'].insert(k, {'output_type': 'stream', 'name': 'stdout', 'text': 'inserted %d\n' % rng.randrange(99)})
+            else:
+                lines = ca['source'].splitlines(True)
+                if lines:
+                    if not lines[-1].endswith('\n'):
+                        lines[-1] += '\n'
+                        base['cells'][i]['source'] = ''.join(lines)
+                    k = rng.randrange(len(lines))
+                    ca['source'] = ''.join(lines[:k] + ['@@@@ %d ~~~~ !!!!\n' % rng.randrange(99)] + lines[k + 1:])
+                    cb['source'] = ''.join(lines[:k] + ['zzzz = qqqq(%d)\n' % rng.randrange(99)] + lines[k:])
+            break
+        elif sc == 'two-conflict-regions':
+            # both sides rewrite two non-adjacent lines of one cell differently
+            i = rng.choice(common)
+            lines = base['cells'][i]['source'].splitlines(True)
+            while len(lines) < 5:
+                lines.append('keep_%d = %d\n' % (len(lines), rng.randrange(99)))
+            lines = [x if x.endswith('\n') else x + '\n' for x in lines]
+            base['cells'][i]['source'] = ''.join(lines)
+            k1, k2 = 0, len(lines) - 1
+            if len(lines) > 6 and rng.random() < 0.5:
+                k1, k2 = 1, len(lines) - 2
+            for nb, tag in ((l, 'LOCAL'), (r, 'REMOTE')):
+                ls = list(lines)
+                ls[k1] = '%s_first = %d\n' % (tag.lower(), rng.randrange(99))
+                ls[k2] = '%s_last = %d\n' % (tag.lower(), rng.randrange(99))
+                nb['cells'][i]['source'] = ''.join(ls)
+            break
+        elif sc == 'output-mixed-keys':
+            # both sides patch the same output; one key is changed on both sides (differently), another by one side only
+            cands = [i for i in common if l['cells'][i]['cell_type'] == 'code']
+            if cands:
+                i = rng.choice(cands)
+                ec = rng.choice([1, 2, 3])
+                rows = ['row %d  %d.%02d' % (q, rng.randrange(9), rng.randrange(99)) for q in range(rng.choice([4, 6, 8]))]
+                out = {'output_type': 'execute_result', 'data': {'text/plain': '\n'.join(rows), 'text/html': '<table>\n' + '\n'.join('<tr><td>%s</td></tr>' % x for x in rows) + '\n</table>'},
+                       'metadata': {}, 'execution_count': ec}
+                pos = rng.randrange(len(base['cells'][i]['outputs']) + 1)
+                for nb in (base, l, r):
+                    nb['cells'][i]['outputs'].insert(pos, copy.deepcopy(out))
+                    nb['cells'][i]['execution_count'] = ec
+                a, b_ = (l, r) if rng.random() < 0.5 else (r, l)
+                q = rng.randrange(len(rows))
+                da, db = a['cells'][i]['outputs'][pos]['data'], b_['cells'][i]['outputs'][pos]['data']
+                da['text/plain'] = da['text/plain'].replace(rows[q], rows[q] + '1')       # small edits: the outputs stay aligned
+                da['text/html'] = da['text/html'].replace(rows[q], rows[q] + '1')
+                db['text/plain'] = db['text/plain'].replace(rows[q], rows[q] + '7')
+                if rng.random() < 0.4:
+                    a['cells'][i]['outputs'][pos]['metadata'] = {'isolated': True}
+        elif sc == 'minor-down':
+            # an older client re-saves the notebook: lower minor version on one side (ids stripped), possibly another minor on the other
+            if base['nbformat_minor'] >= 1:
+                a, b_ = (l, r) if rng.random() < 0.5 else (r, l)
+                a['nbformat_minor'] = rng.randrange(0, base['nbformat_minor'])
+                if rng.random() < 0.5:
+                    b_['nbformat_minor'] = rng.choice([m for m in range(0, 6) if m not in (base['nbformat_minor'], a['nbformat_minor'])])
         elif sc == 'minor':
             for nb in (l, r):
                 newminor = rng.choice([m for m in range(nb['nbformat_minor'], 6)])
